@@ -9,16 +9,16 @@ for d in sorted(glob.glob('/verif/seeded/*/')):
     h = m['history']
     head = h.split(';')[0]
     first = 'missed' if ('MISSED' in head or 'INCONCLUSIVE' in head) else 'caught'
-    rnd = {'a': 1, 'b': 1, 'c': 2, 'd': 2, 'e': 2, 'f': 3, 'g': 3, 'h': 4, 'i': 4, 'j': 5, 'k': 5, 'l': 6, 'm': 6, 'n': 7, 'p': 7, 'q': 8, 'r': 8, 'x': 8}[n[-1]]
+    rnd = {'a': 1, 'b': 1, 'c': 2, 'd': 2, 'e': 2, 'f': 3, 'g': 3, 'h': 4, 'i': 4, 'j': 5, 'k': 5, 'l': 6, 'm': 6, 'n': 7, 'p': 7, 'q': 8, 'r': 8, 'x': 8, 's': 9}[n[-1]]
     rows.append((n, ', '.join(m['changed_files']), first, h, rnd, ', '.join(m.get('detected_by', []))))
-cnt = {r: [sum(1 for x in rows if x[4] == r), sum(1 for x in rows if x[4] == r and x[2] == 'missed')] for r in (1, 2, 3, 4, 5, 6, 7, 8)}
+cnt = {r: [sum(1 for x in rows if x[4] == r), sum(1 for x in rows if x[4] == r and x[2] == 'missed')] for r in (1, 2, 3, 4, 5, 6, 7, 8, 9)}
 retired = sorted(os.path.basename(d.rstrip('/')) for d in glob.glob('/verif/retired/*/'))
 out = [f'''
 ## 9. Seeded changes: which checks catch which
 
 {len(rows)} changes to go-gorm/gorm were written by fresh sub-agents that saw only the text of one
 property and a scratch worktree (never /verif): {cnt[1][0]} in a first round (two per property), {cnt[2][0]} in a second
-(three per property), {cnt[3][0]} in a third, {cnt[4][0]} in a fourth, {cnt[5][0]} in a fifth, {cnt[6][0]} in a sixth, {cnt[7][0]} in a seventh and {cnt[8][0]} in an eighth (two per property each; a property
+(three per property), {cnt[3][0]} in a third, {cnt[4][0]} in a fourth, {cnt[5][0]} in a fifth, {cnt[6][0]} in a sixth, {cnt[7][0]} in a seventh, {cnt[8][0]} in an eighth (two per property each) and {cnt[9][0]} in a short ninth (one change each for twelve properties, in the last two hours of the time; a property
 has fewer where an agent delivered only one change that passed the whole suite, where a delivered change
 could not be confirmed, or where a change was retired, see below). From round 2 on the agents were told which
 functions earlier rounds had changed and were asked for other mechanisms: error paths, second uses of a
@@ -29,7 +29,7 @@ change both modules build, the full existing suite passes, the demonstration fai
 re-runs the property's check against every change; the last complete run is kept in `seeded/MATRIX.txt`.
 
 **Missed by the check as it stood when the change arrived: round 1: {cnt[1][1]} of {cnt[1][0]}; round 2: {cnt[2][1]} of {cnt[2][0]};
-round 3: {cnt[3][1]} of {cnt[3][0]}; round 4: {cnt[4][1]} of {cnt[4][0]}; round 5: {cnt[5][1]} of {cnt[5][0]}; round 6: {cnt[6][1]} of {cnt[6][0]}; round 7: {cnt[7][1]} of {cnt[7][0]}; round 8: {cnt[8][1]} of {cnt[8][0]}.** The share of misses does not fall from round to round: every round's
+round 3: {cnt[3][1]} of {cnt[3][0]}; round 4: {cnt[4][1]} of {cnt[4][0]}; round 5: {cnt[5][1]} of {cnt[5][0]}; round 6: {cnt[6][1]} of {cnt[6][0]}; round 7: {cnt[7][1]} of {cnt[7][0]}; round 8: {cnt[8][1]} of {cnt[8][0]}; round 9: {cnt[9][1]} of {cnt[9][0]}.** The share of misses does not fall from round to round: every round's
 testers were told what the earlier ones had changed and were steered towards rarer combinations (round 6:
 interactions of three features, rarely used entry points and flags, state kept between two calls), while
 the checks had only been extended for what had been delivered so far. With the exceptions listed at the end, every miss was a gap in the workload, not
